@@ -2,18 +2,6 @@
    them in a frame returns the same logical and physical values. *)
 From Dlms Require Import Base Sweep AddrModel AddrSpec.
 
-(* the accepted addresses for which the library's encoding exists in the standard
-   (known finding F13a: a server upper address > 127 without a lower address has no 1/2/4-byte
-   form; a client address given a physical part silently drops it) *)
-Definition addr_ok (a : addr) : Prop :=
-  match a with
-  | (l, None, _) => l <= 127
-  | (l, Some p, true) => l <= 16383 /\ p <= 16383
-  | (_, Some _, false) => False
-  end.
-Definition std_addr (a : addr) : bytes :=
-  let '(l, p, server) := a in if server then std_server l p else std_client l.
-
 Local Opaque N.shiftl N.shiftr N.land N.lor N.modulo N.div.
 
 (* ---------- byte-level facts, complete sweeps over the 14-bit component domain ---------- *)
